@@ -629,6 +629,27 @@ var sweepHBs = []string{"-1", "0", "1", "4", "5", "6", "29", "30", "31", "61", "
 	"27670116115", "36893488148", "36893488153", "9223372036854775807", "9223372036854775808", "18446744073709551621"}
 
 func sweepRun(prop string, c sweepCase) (string, string) {
+	if c.Relogon == "shared-options" {
+		// two accepting sessions built from one options object, each with heartbeat limits of its own: a Logon is
+		// judged by the limits of the session it arrives at
+		o := opts()
+		w1 := newWorld(wcfg{Role: "acc", Buf: 10, HbMin: 5, HbMax: 30, Opts: o})
+		w2 := newWorld(wcfg{Role: "acc", Buf: 10, HbMin: 40, HbMax: 60, Opts: o})
+		w2.in(w2.msg("A", "98=0", "108=10"))
+		if w2.s.IsLogged() {
+			return "sweep:logged-after-logon-outside-limits", fmt.Sprintf("limits 40..60 (another session of the same options object has 5..30) | Logon 108=10 accepted: outs=[%s]", outsStr(w2.outs))
+		}
+		w1.in(w1.msg("A", "98=0", "108=10"))
+		if !w1.s.IsLogged() {
+			return "sweep:acceptable-logon-not-accepted", fmt.Sprintf("limits 5..30 | Logon 108=10: outs=[%s]", outsStr(w1.outs))
+		}
+		w3 := newWorld(wcfg{Role: "acc", Buf: 10, HbMin: 40, HbMax: 60, Opts: o})
+		w3.in(w3.msg("A", "98=0", "108=50"))
+		if !w3.s.IsLogged() {
+			return "sweep:acceptable-logon-not-accepted", fmt.Sprintf("limits 40..60 | Logon 108=50: outs=[%s]", outsStr(w3.outs))
+		}
+		return "", ""
+	}
 	if c.Relogon != "" {
 		// the second logon of an initiating session: logon, a logout exchange (begun by the peer or locally), then
 		// the application asks for a logon again and the peer answers it
@@ -728,7 +749,7 @@ func runLogonSweep(R *vlib.Out, prop string) {
 	}
 	unit := 0
 	if prop == "C06" {
-		for _, how := range []string{"peer", "local"} {
+		for _, how := range []string{"peer", "local", "shared-options"} {
 			unit++
 			if vlib.Mine(unit) {
 				one(sweepCase{Scenario: "logon-sweep", Relogon: how})
